@@ -86,30 +86,26 @@ Definition mc_add_group (st : mc_state) (w : list N) (pend : list N) : mc_state 
   {| inmount := if in_circle w then inmount st + 1 else inmount st; mcount := mcount st + 1; pending := pend |}.
 
 (* data.chunks_exact(6): groups, then the remainder becomes `pending` *)
-Fixpoint mc_chunks (fuel : nat) (st : mc_state) (data : list N) : mc_state :=
-  match fuel with
-  | O => st
-  | S f =>
-      match data with
-      | a :: b :: c :: d :: e :: g :: r => mc_chunks f (mc_add_group st [a; b; c; d; e; g] []) r
-      | rem => {| inmount := inmount st; mcount := mcount st; pending := rem |}
-      end
+Fixpoint mc_chunks (st : mc_state) (data : list N) {struct data} : mc_state :=
+  match data with
+  | a :: b :: c :: d :: e :: g :: r => mc_chunks (mc_add_group st [a; b; c; d; e; g] []) r
+  | rem => {| inmount := inmount st; mcount := mcount st; pending := rem |}
   end.
 
 Definition mc_update (st : mc_state) (data : list N) : mc_state :=
   match pending st with
-  | [] => mc_chunks (S (length data)) st data
+  | [] => mc_chunks st data
   | p =>
       let n := Nat.min (6 - length p) (length data) in
       let p' := p ++ firstn n data in
       let rest := skipn n data in
       if (length p' <? 6)%nat then {| inmount := inmount st; mcount := mcount st; pending := p' |}
-      else mc_chunks (S (length rest)) (mc_add_group st p' []) rest
+      else mc_chunks (mc_add_group st p' []) rest
   end.
 
 (* pinned tree: every slice is chunked on its own, the remainder is dropped *)
 Definition mc_update_pinned (st : mc_state) (data : list N) : mc_state :=
-  let st' := mc_chunks (S (length data)) st data in
+  let st' := mc_chunks st data in
   {| inmount := inmount st'; mcount := mcount st'; pending := [] |}.
 
 Definition mc_finalize (st : mc_state) : option fval :=
